@@ -132,9 +132,27 @@ pub fn define(
                 }
             };
 
-            // FIXME: Multiplication can overflow
-            let size = addr_size
-                .map(|s| s * addr_unit);
+            let size = match addr_size
+            {
+                None => None,
+                Some(s) =>
+                {
+                    match s.checked_mul(addr_unit)
+                    {
+                        Some(size) if size <= asm::resolver::MAX_POSITION =>
+                            Some(size),
+
+                        _ =>
+                        {
+                            report.error_span(
+                                "value is out of supported range",
+                                node.header_span);
+                            
+                            return Err(());
+                        }
+                    }
+                }
+            };
             
             let output_offset = match &node.output_offset
             {
@@ -147,6 +165,21 @@ pub fn define(
                         expr)?
                     .expect_usize(report, expr.span())?),
             };
+
+            // Keep every quantity that takes part in position
+            // arithmetic within the supported range
+            let unit_too_large = addr_unit > (1 << 24);
+            let align_too_large = label_align.map_or(false, |a| a > asm::resolver::MAX_POSITION);
+            let outp_too_large = output_offset.map_or(false, |o| o > asm::resolver::MAX_POSITION);
+
+            if unit_too_large || align_too_large || outp_too_large
+            {
+                report.error_span(
+                    "value is out of supported range",
+                    node.header_span);
+                
+                return Err(());
+            }
 
             let fill = node.fill;
 
